@@ -14,6 +14,7 @@ dictionary and compares the returned dictionary with a NumPy reference:
 from __future__ import annotations
 
 import itertools
+import math
 
 import numpy as np
 
@@ -171,6 +172,8 @@ def gen_cases(tier, seed):
     # graphs that torch.vmap cannot differentiate: one-row chunks and one-row batches must still equal Grad row by row
     for nout in (1, 2):
         cases.append(dict(kind="novmap", nout=nout, seed=seed))
+    # batches of 300 cotangent rows (beyond any internal row cap) and inputs with zero elements (shapes (0,), (2,0), (0,3,1))
+    cases.append(dict(kind="tall-and-empty", seed=seed))
     return cases
 
 
@@ -656,10 +659,58 @@ def run_novmap(acc, nout, seed):
                 acc.outcomes.add(digest(["nv", nout, m, ch, rows]) if ok else "nv-bad")
 
 
+def run_tall_and_empty(acc, seed):
+    """(a) Jac with 300 rows in one chunk / chunks of 299, 257, 256, 100 on a graph with saved tensors, retain_graph False and True;
+    (b) Grad and Jac w.r.t. inputs without elements: the result has shape (m,) + input.shape. (Added after seeded changes: vmap capped
+    at 256 rows - the last chunk then ran twice with the caller's flag; a row count inferred with view(-1, ...).)"""
+    import torch
+    from torchjd.autojac._transform import Grad, Gradients, Jac, Jacobians
+
+    m = 300
+    for ch in (None, 299, 257, 256, 100):
+        for rg in (False, True):
+            a = torch.linspace(-1.0, 2.0, 5, dtype=torch.float64).requires_grad_()
+            b = torch.tensor(1.5, dtype=torch.float64, requires_grad=True)
+            y = torch.sin(a) * a * b  # saved tensors
+            C = np.array([[math.sin(0.37 * i + 0.9 * j) for j in range(5)] for i in range(m)])
+            C[7] = 0.0
+            what = f"Jac tall m={m} chunk={ch} retain_graph={rg}"
+            res = _call(acc, what, lambda: Jac([y], [a, b], ch, retain_graph=rg)(Jacobians({y: torch.tensor(C, dtype=torch.float64)})))
+            if res is None:
+                continue
+            av, bv = a.detach().numpy(), float(b)
+            dya = (np.cos(av) * av + np.sin(av)) * bv
+            dyb = np.sin(av) * av
+            _check_dict(acc, what, res, Jacobians, [(a, C * dya[None, :]), (b, C @ dyb)], TOL64, "jac", 10.0)
+            acc.nontrivial += 1
+            acc.outcomes.add(f"tall:{ch}:{rg}")
+    for shape in ((0,), (2, 0), (0, 3, 1)):
+        a = torch.tensor([0.7, -1.3, 2.1], dtype=torch.float64, requires_grad=True)
+        e = torch.zeros(shape, dtype=torch.float64, requires_grad=True)
+        y = torch.sin(a) * 2.0 + e.sum()
+        dya = np.diag(np.cos(a.detach().numpy()) * 2.0)
+        c = np.array([0.5, -1.5, 2.0])
+        what = f"Grad empty-input shape={shape}"
+        res = _call(acc, what, lambda: Grad([y], [e, a], retain_graph=True)(Gradients({y: torch.tensor(c)})))
+        if res is not None:
+            _check_dict(acc, what, res, Gradients, [(e, np.zeros(shape)), (a, c @ dya)], TOL64, "grad", 10.0)
+        for mm in (1, 2, 3):
+            for ch in (None, 1, 2):
+                C = np.stack([c * (k + 1) for k in range(mm)])
+                what = f"Jac empty-input shape={shape} m={mm} chunk={ch}"
+                res = _call(acc, what, lambda: Jac([y], [a, e], ch, retain_graph=True)(Jacobians({y: torch.tensor(C)})))
+                if res is not None:
+                    _check_dict(acc, what, res, Jacobians, [(a, C @ dya), (e, np.zeros((mm,) + tuple(shape)))], TOL64, "jac", 10.0)
+                acc.nontrivial += 1
+                acc.outcomes.add(f"empty:{shape}:{mm}:{ch}")
+
+
 def run_case(case):
     acc = Acc()
     seed = case["seed"]
-    if case["kind"] == "novmap":
+    if case["kind"] == "tall-and-empty":
+        run_tall_and_empty(acc, seed)
+    elif case["kind"] == "novmap":
         run_novmap(acc, case["nout"], seed)
     elif case["kind"] == "layout":
         for shapes in case["shapes"]:
